@@ -44,25 +44,105 @@ fn on_free(sz: usize) {
     });
 }
 
+/// Allocations at least this large bypass malloc: they are served from anonymous mappings, and one
+/// freed mapping per thread is kept (its pages dropped with MADV_DONTNEED, so it reads as zeros
+/// again) and reused for the next request of the same size. The Wasm engine allocates a zeroed
+/// 32 MiB buffer for every execution; with 16 shard threads in one process, mapping and unmapping
+/// it each time serialises all threads on the address-space lock and costs TLB shootdowns.
+const BIG: usize = 8 << 20;
+
+thread_local! {
+    static BIG_CACHE: Cell<(usize, usize)> = const { Cell::new((0, 0)) };
+}
+
+unsafe fn big_alloc(size: usize) -> *mut u8 {
+    let cached = BIG_CACHE.try_with(|c| {
+        let (p, s) = c.get();
+        if p != 0 && s == size {
+            c.set((0, 0));
+            p
+        } else {
+            0
+        }
+    });
+    if let Ok(p) = cached {
+        if p != 0 {
+            return p as *mut u8;
+        }
+    }
+    let p = libc::mmap(
+        std::ptr::null_mut(),
+        size,
+        libc::PROT_READ | libc::PROT_WRITE,
+        libc::MAP_PRIVATE | libc::MAP_ANONYMOUS,
+        -1,
+        0,
+    );
+    if p == libc::MAP_FAILED {
+        std::ptr::null_mut()
+    } else {
+        p as *mut u8
+    }
+}
+
+unsafe fn big_free(ptr: *mut u8, size: usize) {
+    let kept = BIG_CACHE.try_with(|c| {
+        if c.get().0 == 0 && libc::madvise(ptr as *mut libc::c_void, size, libc::MADV_DONTNEED) == 0 {
+            c.set((ptr as usize, size));
+            true
+        } else {
+            false
+        }
+    });
+    if kept != Ok(true) {
+        libc::munmap(ptr as *mut libc::c_void, size);
+    }
+}
+
 unsafe impl GlobalAlloc for Counting {
     unsafe fn alloc(&self, layout: Layout) -> *mut u8 {
         on_alloc(layout.size());
+        if layout.size() >= BIG && layout.align() <= 4096 {
+            return big_alloc(layout.size());
+        }
         System.alloc(layout)
     }
 
     unsafe fn dealloc(&self, ptr: *mut u8, layout: Layout) {
         on_free(layout.size());
+        if layout.size() >= BIG && layout.align() <= 4096 {
+            return big_free(ptr, layout.size());
+        }
         System.dealloc(ptr, layout)
     }
 
     unsafe fn alloc_zeroed(&self, layout: Layout) -> *mut u8 {
         on_alloc(layout.size());
+        if layout.size() >= BIG && layout.align() <= 4096 {
+            // fresh and recycled mappings both read as zeros
+            return big_alloc(layout.size());
+        }
         System.alloc_zeroed(layout)
     }
 
     unsafe fn realloc(&self, ptr: *mut u8, layout: Layout, new_size: usize) -> *mut u8 {
         on_free(layout.size());
         on_alloc(new_size);
+        let big_old = layout.size() >= BIG && layout.align() <= 4096;
+        let big_new = new_size >= BIG && layout.align() <= 4096;
+        if big_old || big_new {
+            let new_layout = Layout::from_size_align_unchecked(new_size, layout.align());
+            let np = if big_new { big_alloc(new_size) } else { System.alloc(new_layout) };
+            if !np.is_null() {
+                std::ptr::copy_nonoverlapping(ptr, np, layout.size().min(new_size));
+                if big_old {
+                    big_free(ptr, layout.size());
+                } else {
+                    System.dealloc(ptr, layout);
+                }
+            }
+            return np;
+        }
         System.realloc(ptr, layout, new_size)
     }
 }
